@@ -3,6 +3,7 @@ package brokertrace
 import (
 	"flag"
 	"fmt"
+	"github.com/256dpi/gomqtt/broker"
 	"strings"
 	"sync"
 	"testing"
@@ -1042,6 +1043,16 @@ func TestHarness(t *testing.T) {
 		n = 16000
 	}
 	n = n/(*fNShard) + 1
+	// the package defaults the model's configuration relies on
+	runCase(t, o, "defaults", func() {
+		w := newWorld(o, *fProp, 10, 100, nil)
+		w.be.ClientInflightMessages = 0 // left to the package: the effective values show on the connected client
+		c := w.Conn()
+		w.Connect(c, "D", true, nil, 0, "", "")
+		cl := w.clients[c]
+		o.Op(fmt.Sprintf("br defaults %d %d %d %d", cl.InflightMessages, cl.ParallelPublishes, cl.ParallelSubscribes, broker.NewMemoryBackend().SessionQueueSize), "ok")
+		w.finish()
+	})
 	all := []packet.QOS{0, 1, 2}
 	rs := func(name string, p func() profile) {
 		for i := 0; i < n; i++ {
